@@ -20,6 +20,7 @@ func init() {
 		"nondetString":   hNondetString,
 		"nondetStringN":  hNondetStringN,
 		"nondetStringU":  hNondetStringU,
+		"nondetASCII":    hNondetASCII,
 		"vparam":         hVparam,
 		"vassume":        hVassume,
 		"vassert":        hVassert,
@@ -502,4 +503,17 @@ func hVguard(c *Ctx, st *State, fn *ssa.Function, a []Value) (*State, Value) {
 func hVunguard(c *Ctx, st *State, fn *ssa.Function, a []Value) (*State, Value) {
 	c.guards = nil
 	return st, nil
+}
+
+// nondetASCII(name, n): n bytes, each an arbitrary 7-bit value (the high bit is structurally zero, so the
+// engine knows without the solver that rune decoding is trivial). Variables name[i] are 7 bits wide.
+func hNondetASCII(c *Ctx, st *State, fn *ssa.Function, a []Value) (*State, Value) {
+	name := c.freshName(c.nameArg(a[0]))
+	n := c.intArg(a[1])
+	c.nondetVars = append(c.nondetVars, nondetVar{name: name, kind: "str", strN: n})
+	s := &Str{b: make([]*Term, n)}
+	for i := 0; i < n; i++ {
+		s.b[i] = c.tt.Concat(c.tt.Const(1, 0), c.tt.Var(fmt.Sprintf("%s[%d]", name, i), 7))
+	}
+	return st, s
 }
